@@ -100,6 +100,17 @@ def catalogue(tier):
             except BaseException:
                 continue
             out.append((f"synthetic:{mk}:{seed}", cols, k))
+    # a curve whose "tip position" comes with the data (exported and loaded
+    # again, or a format that stores it): compute_tip_position has nothing to
+    # do, the later steps work on that innate column
+    try:
+        cols, k = synthetic(keys[0], 77, tilt=0.0, drift=0.0, lag=0,
+                            noise=2e-11, n_app=110, n_ret=55)
+        cols = dict(cols)
+        cols["tip position"] = cols["height (measured)"] + cols["force"] / k
+        out.append((f"innate-tip-position:{keys[0]}:77", cols, k))
+    except BaseException:
+        pass
     recs = [("fmt-jpk-fd_spot3-0192.jpk-force", 12),
             ("fmt-jpk-fd_single_tilted-baseline-drift-"
              "mitotic_2021-01-29.jpk-force", 40)]
